@@ -10,10 +10,10 @@ hand = {
  "c07_no_recover_trigger.diff": "recover removed from handlerContext.Trigger",
  "c07_wrap_errors.diff": "AsException wraps errors (identity lost)",
  "c08_prefix_defect.diff": "reverse of fix 6529eea (lazy LimitReader delivers truncated frames)",
- "c09_prefix_delimiter.diff": "reverse of fix 882c09b (delimiter codec MultiReader for in-memory messages)",
+ "c09_prefix_delimiter.diff": "reverse of fix ad4dd01 (delimiter codec MultiReader for in-memory messages)",
  "c12_holder_del_nolock.diff": "mutex dropped in holder.delChannel",
  "c12_isactive_plain_read.diff": "IsActive reads the closed flag without atomic",
- "c13_prefix_defect.diff": "reverse of fix 857d6d7 (late-started listener keeps accepting; acceptor race)",
+ "c13_prefix_defect.diff": "reverse of fix cbbf80a (late-started listener keeps accepting; acceptor race)",
  "c14_prefix_readbyte.diff": "reverse of fix 08a134b (ReadByte returns byte+error)",
  "c14_prefix_stealbytes.diff": "reverse of fix 1ea4837 (StealBytes aliasing)",
  "c19_prefix_defect.diff": "reverse of fix aee4a13 (Put of a non-class capacity)",
